@@ -2,8 +2,8 @@
     after Gen): the executable model of the *current* /repo. *)
 From Coq Require Import List ZArith Bool.
 From Coq Require Import Strings.Byte.
-From Rjson Require Import Base Helpers Machine Api Compat.
-From RjsonGen Require Import GenTables.
+From Rjson Require Import Base Helpers Machine MachineFast Api Compat Round Fp ValueReader.
+From RjsonGen Require Import GenTables GenFp.
 Import ListNotations.
 Local Open Scope Z_scope.
 
@@ -40,3 +40,76 @@ Definition i_DecodeUint32 := DecodeUint32 maxDepth mNull.
 Definition i_DecodeUint := DecodeUint maxDepth mNull.
 Definition i_DecodeBool := DecodeBool maxDepth mNull mBool.
 Definition i_DecodeString := DecodeString maxDepth mNull mAppend.
+
+(** the float parser over the regenerated tables *)
+Definition fpT : fp_tables :=
+  {| t_pow10 := gen_pow10; t_minexp10 := const_detailedPowersOfTenMinExp10;
+     t_maxexp10 := const_detailedPowersOfTenMaxExp10; t_f64pow10 := gen_float64pow10_exps;
+     t_powtab := gen_powtab; t_leftcheats := gen_leftcheats;
+     t_mantbits := const_mantbits; t_expbits := const_expbits; t_bias := const_bias |}.
+
+(** ReadFloat64 as (bits, p, err); the model's out-of-fuel value (never observed, excluded by
+    the theorems) is reported as an error of class EOther *)
+Definition i_ReadFloat64 (data : list byte) : Z * Z * option errk :=
+  match ReadFloat64_m fpT data with
+  | Some (v, p, None) => (v, p, None)
+  | Some (_, p, Some _) => (0, p, Some EInvalidNumber)
+  | None => (0, 0, Some EOther)
+  end.
+Definition i_DecodeFloat64 := decode_with maxDepth mNull i_ReadFloat64.
+
+(** the generic value reader *)
+Definition vrMax := const_valueReaderMaxDepth.
+Definition i_ReadValue := ReadValue maxDepth vrMax mArr mObj mNull mBool mAppend mUnescape i_ReadFloat64.
+Definition i_ReadObject := ReadObject maxDepth vrMax mArr mObj mNull mBool mAppend mUnescape i_ReadFloat64.
+Definition i_ReadArray := ReadArray maxDepth vrMax mArr mObj mNull mBool mAppend mUnescape i_ReadFloat64.
+Definition i_ReadValue_fast := ReadValue_fast maxDepth vrMax mSkip mArr mObj mNull mBool mAppend mUnescape i_ReadFloat64.
+Definition i_ReadObject_fast := ReadObject_fast maxDepth vrMax mSkip mArr mObj mNull mBool mAppend mUnescape i_ReadFloat64.
+Definition i_ReadArray_fast := ReadArray_fast maxDepth vrMax mSkip mArr mObj mNull mBool mAppend mUnescape i_ReadFloat64.
+
+(** ** The same definitions over the indexed tables [of_raw_fast]: what the extracted driver
+    executes.  [run/TieFast.v] proves each [x_f] equal to its [i_f]. (generated from the part above) *)
+Definition xSkip := of_raw_fast skipValue_raw.
+Definition xSkipFast := of_raw_fast skipValueFast_raw.
+Definition xArr := of_raw_fast handleArrayValues_raw.
+Definition xObj := of_raw_fast handleObjectValues_raw.
+Definition xNull := of_raw_fast readNull_raw.
+Definition xBool := of_raw_fast readBool_raw.
+Definition xAppend := of_raw_fast appendRemainderOfString_raw.
+Definition xUnescape := of_raw_fast unescapeStringContent_raw.
+Definition x_skipValue := skipValue_m maxDepth xSkip.
+Definition x_skipValueFast := skipValueFast_m maxDepth xSkipFast.
+Definition x_handleArrayValues := handleArrayValues_m maxDepth xArr.
+Definition x_handleObjectValues := handleObjectValues_m maxDepth xObj.
+Definition x_SkipValue := SkipValue maxDepth xSkip.
+Definition x_SkipValueFast := SkipValueFast maxDepth xSkipFast.
+Definition x_Valid := Valid maxDepth xSkip.
+Definition x_HandleArrayValues := HandleArrayValues maxDepth xArr.
+Definition x_HandleObjectValues := HandleObjectValues maxDepth xObj.
+Definition x_ReadNull := ReadNull maxDepth xNull.
+Definition x_ReadBool := ReadBool maxDepth xBool.
+Definition x_appendRemainderOfString := appendRemainderOfString maxDepth xAppend.
+Definition x_UnescapeStringContent := UnescapeStringContent maxDepth xUnescape.
+Definition x_ReadStringBytes := ReadStringBytes maxDepth xAppend.
+Definition x_ReadString := ReadString maxDepth xAppend.
+Definition x_DecodeInt64 := DecodeInt64 maxDepth xNull.
+Definition x_DecodeInt32 := DecodeInt32 maxDepth xNull.
+Definition x_DecodeInt := DecodeInt maxDepth xNull.
+Definition x_DecodeUint64 := DecodeUint64 maxDepth xNull.
+Definition x_DecodeUint32 := DecodeUint32 maxDepth xNull.
+Definition x_DecodeUint := DecodeUint maxDepth xNull.
+Definition x_DecodeBool := DecodeBool maxDepth xNull xBool.
+Definition x_DecodeString := DecodeString maxDepth xNull xAppend.
+Definition x_ReadFloat64 (data : list byte) : Z * Z * option errk :=
+  match ReadFloat64_m fpT data with
+  | Some (v, p, None) => (v, p, None)
+  | Some (_, p, Some _) => (0, p, Some EInvalidNumber)
+  | None => (0, 0, Some EOther)
+  end.
+Definition x_DecodeFloat64 := decode_with maxDepth xNull x_ReadFloat64.
+Definition x_ReadValue := ReadValue maxDepth vrMax xArr xObj xNull xBool xAppend xUnescape x_ReadFloat64.
+Definition x_ReadObject := ReadObject maxDepth vrMax xArr xObj xNull xBool xAppend xUnescape x_ReadFloat64.
+Definition x_ReadArray := ReadArray maxDepth vrMax xArr xObj xNull xBool xAppend xUnescape x_ReadFloat64.
+Definition x_ReadValue_fast := ReadValue_fast maxDepth vrMax xSkip xArr xObj xNull xBool xAppend xUnescape x_ReadFloat64.
+Definition x_ReadObject_fast := ReadObject_fast maxDepth vrMax xSkip xArr xObj xNull xBool xAppend xUnescape x_ReadFloat64.
+Definition x_ReadArray_fast := ReadArray_fast maxDepth vrMax xSkip xArr xObj xNull xBool xAppend xUnescape x_ReadFloat64.
